@@ -323,6 +323,35 @@ MUTANTS: List[Dict] = [
     M("lower12-short-advance", "breaking", AT, "        enif_index = self.block_index + 2\n        self.block_index += 3\n", "        enif_index = self.block_index + 2\n        self.block_index += 2\n", ["LOWER-12"]),
     M("lower12-shared-index", "breaking", AT, "        then_index = self.block_index\n        else_index = self.block_index + 1\n", "        then_index = self.block_index\n        else_index = self.block_index\n", ["LOWER-12"]),
     M("ok-lower12-spare-index", "benign", AT, "        enif_index = self.block_index + 2\n        self.block_index += 3\n", "        enif_index = self.block_index + 2\n        self.block_index += 4\n", []),
+    M("attr1-isinstance-swapped", "breaking", RE, "            raise Exception(\"Unknown name type: \" + name)\n        digraph.node(str(name), shape=\"rect\", label=body)\n\n    def render_branching_block(\n        self, digraph: \"Digraph\", name: str, block: SyntheticBranch\n    ) -> None:\n        if isinstance(name, str):\n            body = name + r\"\\l\"\n            body += rf\"variable: {block.variable}\\l\"", "            raise Exception(\"Unknown name type: \" + name)\n        digraph.node(str(name), shape=\"rect\", label=body)\n\n    def render_branching_block(\n        self, digraph: \"Digraph\", name: str, block: SyntheticBranch\n    ) -> None:\n        if isinstance(str, name):\n            body = name + r\"\\l\"\n            body += rf\"variable: {block.variable}\\l\"", ["ATTR-1"]),
+    M("ok-scc-pop-cond", "benign", "networkx_vendored/scc.py", "scc_queue and preorder[scc_queue[-1]] > preorder[v]", "scc_queue and preorder[scc_queue[-1]] >= preorder[v]", [], "v is not on scc_queue when the loop runs: the comparison is never an equality"),
+    M("query4-single-other", "breaking", TR, "        for jt in jump_targets:\n            if jt != bra_start and scfg.is_reachable_dfs(jt, bra_start):\n                # placeholder for empty branch region\n                branch_regions.append(None)\n                break\n        else:\n", "        other = next(jt for jt in jump_targets if jt != bra_start)\n        if scfg.is_reachable_dfs(other, bra_start):\n            # placeholder for empty branch region\n            branch_regions.append(None)\n        else:\n", ["QUERY-4"]),
+    M("query4-no-self-exclusion", "breaking", TR, "            if jt != bra_start and scfg.is_reachable_dfs(jt, bra_start):\n", "            if scfg.is_reachable_dfs(jt, bra_start):\n", ["QUERY-4"]),
+    M("query4-no-break", "breaking", TR, "                branch_regions.append(None)\n                break\n", "                branch_regions.append(None)\n", ["QUERY-4"]),
+    M("query4-membership-or", "breaking", TR, "                if bra_start in kdom and end not in kdom:\n", "                if bra_start in kdom or end not in kdom:\n", ["QUERY-4"]),
+    M("ok-query4-any", "benign", TR, "        for jt in jump_targets:\n            if jt != bra_start and scfg.is_reachable_dfs(jt, bra_start):\n                # placeholder for empty branch region\n                branch_regions.append(None)\n                break\n        else:\n", "        if any(jt != bra_start and scfg.is_reachable_dfs(jt, bra_start) for jt in jump_targets):\n            # placeholder for empty branch region\n            branch_regions.append(None)\n        else:\n", []),
+    M("query5-self-loop-seed", "breaking", TR, "        targets = set(v.jump_targets) & set(scfg.graph)\n", "        targets = set(v.jump_targets) & set(scfg.graph) - {k}\n", ["QUERY-5"]),
+    M("query5-raw-seed", "breaking", TR, "        targets = set(v.jump_targets) & set(scfg.graph)\n", "        targets = set(v._jump_targets) & set(scfg.graph)\n", ["QUERY-5", "STORE-12"]),
+    M("query5-outside-seed", "breaking", TR, "        targets = set(v.jump_targets) & set(scfg.graph)\n", "        targets = set(v.jump_targets)\n", ["QUERY-5"]),
+    M("ok-query5-comprehension", "benign", TR, "        targets = set(v.jump_targets) & set(scfg.graph)\n", "        targets = {t for t in v.jump_targets if t in scfg.graph}\n", []),
+    M("ok-query5-intersection", "benign", TR, "        targets = set(v.jump_targets) & set(scfg.graph)\n", "        targets = set(scfg.graph.keys()).intersection(v.jump_targets)\n", []),
+    M("query5-post-forward", "breaking", TR, "                preds_table[src].add(dst)\n                succs_table[dst].add(src)\n", "                preds_table[dst].add(src)\n                succs_table[src].add(dst)\n", ["QUERY-5"]),
+    M("query5-not-inverse", "breaking", TR, "                preds_table[src].add(dst)\n                succs_table[dst].add(src)\n", "                preds_table[src].add(dst)\n                succs_table[src].add(dst)\n", ["QUERY-5"]),
+    M("query5-seeds-early", "breaking", TR, "    node: BasicBlock\n    for src, node in scfg.graph.items():\n        for dst in node.jump_targets:\n            # check dst is in subgraph\n            if dst in scfg.graph:\n                preds_table[dst].add(src)\n                succs_table[src].add(dst)\n\n    for k in scfg.graph:\n        if not preds_table[k]:\n            entries.add(k)\n", "    for k in scfg.graph:\n        if not preds_table[k]:\n            entries.add(k)\n    node: BasicBlock\n    for src, node in scfg.graph.items():\n        for dst in node.jump_targets:\n            # check dst is in subgraph\n            if dst in scfg.graph:\n                preds_table[dst].add(src)\n                succs_table[src].add(dst)\n\n", ["QUERY-5"]),
+    M("query6-no-break", "breaking", "networkx_vendored/scc.py", "                        done = False\n                        break\n", "                        done = False\n", ["QUERY-6"]),
+    M("query6-lowlink-direction", "breaking", "networkx_vendored/scc.py", "                            if preorder[w] > preorder[v]:\n", "                            if preorder[w] < preorder[v]:\n", ["QUERY-6"]),
+    M("query6-found-guard", "breaking", "networkx_vendored/scc.py", "                        if w not in scc_found:\n", "                        if w not in preorder:\n", ["QUERY-6"]),
+    M("query6-root-not-recorded", "breaking", "networkx_vendored/scc.py", "                        scc_found.update(scc)\n", "", ["QUERY-6"]),
+    M("query6-counter-reset", "breaking", "networkx_vendored/scc.py", "            queue = [source]\n", "            queue = [source]\n            i = 0\n", ["QUERY-6"]),
+    M("query6-adapter-unfiltered", "breaking", SCFG, "                return [k for k in out if k in self.graph]\n", "                return [k for k in out]\n", ["QUERY-6"]),
+    M("ok-query6-augassign", "benign", "networkx_vendored/scc.py", "                    i = i + 1\n", "                    i += 1\n", []),
+    M("ok-query6-min-args", "benign", "networkx_vendored/scc.py", "lowlink[v] = min([lowlink[v], lowlink[w]])", "lowlink[v] = min(lowlink[v], lowlink[w])", []),
+    M("query7-union", "breaking", TR, "                set.intersection, [doms[p] for p in preds]  # type: ignore\n", "                set.union, [doms[p] for p in preds]  # type: ignore\n", ["QUERY-7"]),
+    M("query7-no-requeue", "breaking", TR, "            doms[n] = new_doms\n            todo.extend(succs_table[n])\n", "            doms[n] = new_doms\n", ["QUERY-7"]),
+    M("query7-requeue-preds", "breaking", TR, "            doms[n] = new_doms\n            todo.extend(succs_table[n])\n", "            doms[n] = new_doms\n            todo.extend(preds_table[n])\n", ["QUERY-7"]),
+    M("query7-bottom-start", "breaking", TR, "            doms[n] = set(nodes)\n            todo.append(n)\n", "            doms[n] = {n}\n            todo.append(n)\n", ["QUERY-7"]),
+    M("query7-non-strict", "breaking", TR, "    idoms = {k: v - {k} for k, v in doms.items()}\n", "    idoms = {k: set(v) for k, v in doms.items()}\n", ["QUERY-7"]),
+    M("ok-query7-fifo", "benign", TR, "    while todo:\n        n = todo.pop()\n        if n in entries:\n", "    while todo:\n        n = todo.pop(0)\n        if n in entries:\n", []),
     # ------------------------------------------------ benign
     M("ok-rename-locals", "benign", TR, None, None, [], "rename locals of loop_restructure_helper (computed edit)"),
     M("ok-sorted-key", "benign", TR, "    for name in sorted(loop):\n", "    for name in sorted(loop, key=str):\n", []),
